@@ -427,7 +427,7 @@ def placements(n, mode):
         out += [('latesplit', m, k) for m in sorted({(1 << n) - 1, 0b0101 & ((1 << n) - 1)}) if m for k in range(1, n)]
     elif mode == 'some':
         out += [('split', m) for m in (1, (1 << n) - 2, 0b0101 & ((1 << n) - 1)) if 0 < m < (1 << n) - 1]
-        out += [('late', n // 2)]
+        out += [('late', k) for k in range(1, n)]
         out += [('latesplit', (1 << n) - 1, n // 2)]
     elif mode == 'few':
         out += [('split', 0b0101 & ((1 << n) - 1)), ('late', n // 2)]
@@ -586,10 +586,55 @@ def run_long(d, res):
                 res['distinct_nontrivial'] += 1
                 bad = structural_check(c) or fixpoint_check(c) or value_check(c, x)
                 res['_outcomes'].add(tuple(a.value for a, b in c.o))
+            if not bad:
+                # a run of several cycles cancelled by stop() (from a listener) in its second cycle, then a run aborted by an exception
+                # escaping from a listener; each time the inputs change afterwards and the next clock call settles the netlist
+                for how in ('stop', 'raise'):
+                    lst = _Interrupt(c.sim, how)
+                    c.sim.addListener(lst)
+                    x = vecs[3] if how == 'stop' else vecs[2]
+                    for w, v in zip(c.free, x):
+                        w.put(v)
+                    try:
+                        c.sim.clk(3)
+                    except _Boom:
+                        pass
+                    c.sim.listeners.remove(lst)
+                    x2 = vecs[1] if how == 'stop' else vecs[3]
+                    for w, v in zip(c.free, x2):
+                        w.put(v)
+                    c.sim.clk(0)
+                    tr.append(['%s in cycle 2 of clk(3) with' % how] + list(x))
+                    tr.append(list(x2))
+                    # register content after an unknown number of edges is not the point here: compare the combinational part only
+                    c.regs = {half: (c.o[half][0].value, c.o[half][1].value)}
+                    res['evaluations'] += 1
+                    bad = structural_check(c) or fixpoint_check(c) or value_check(c, x2)
+                    if bad:
+                        bad = dict(bad, sigkey=bad['sigkey'] + '_after_' + ('stopped_run' if how == 'stop' else 'run_aborted_by_exception'))
+                        break
             if bad:
                 sig = 'C04:%s' % bad['sigkey']
                 if not any(v['sig'] == sig for v in res['violations']):
                     res['violations'].append({'sig': sig, 'shard': desc, 'trace': tr, 'detail': bad})
+
+
+class _Boom(Exception):
+    pass
+
+
+class _Interrupt:
+    """listener: in the second cycle it sees it either asks the simulator to stop or raises"""
+    def __init__(self, sim, how):
+        self.sim, self.how, self.n = sim, how, 0
+
+    def simulatorUpdated(self):
+        self.n += 1
+        if self.n == 2:
+            if self.how == 'stop':
+                self.sim.stop()
+            else:
+                raise _Boom()
 
 
 class SrcG(Logic):
@@ -616,10 +661,62 @@ class PadIn(Logic):
         self.o.put(self.pad.get())
 
 
+class DupPortG(Logic):
+    """two input ports that carry the same name (ports named after equally named wires of different blocks, as Scope does)"""
+    def __init__(self, parent, name, w1, w2, o):
+        super().__init__(parent, name)
+        self.p1 = self.addIn('y', w1)
+        self.p2 = self.addIn('y', w2)
+        self.o = self.addOut('o', o)
+
+    def propagate(self):
+        self.o.put(self.p1.get() ^ self.p2.get())
+
+
+def run_dupport(res):
+    for order in ('reader_first', 'reader_last'):
+        for L in (1, 2, 3):
+            for seq in itertools.product([(a, b, n) for a in (0, 1) for b in (0, 1) for n in (0, 1)], repeat=L):
+                with core.quiet():
+                    hw = py4hw.HWSystem()
+                    a, b, y1, y2, o = hw.wire('a'), hw.wire('b'), hw.wire('y1'), hw.wire('y2'), hw.wire('o')
+                    if order == 'reader_first':
+                        DupPortG(hw, 'g', y1, y2, o)
+                    py4hw.Not(hw, 'n1', a, y1)
+                    py4hw.Not(hw, 'n2', b, y2)
+                    if order == 'reader_last':
+                        DupPortG(hw, 'g', y1, y2, o)
+                    try:
+                        sim = hw.getSimulator()
+                    except Exception:
+                        core.reset_prepared()
+                        res['cyclic'] = res.get('cyclic', 0)
+                        return          # the library does not accept two ports of one name: nothing to compare
+                res['programs'] += 1
+                tr = []
+                for va, vb, n in seq:
+                    a.put(va)
+                    b.put(vb)
+                    with core.quiet():
+                        sim.clk(n)
+                    tr.append([va, vb, n])
+                    res['evaluations'] += 1
+                    got, exp = o.get(), (va ^ 1) ^ (vb ^ 1)
+                    res['_outcomes'].add(('dup', got))
+                    if got != exp:
+                        sig = 'C04:wrong_values_two_ports_of_one_name'
+                        if not any(x['sig'] == sig for x in res['violations']):
+                            res['violations'].append({'sig': sig, 'shard': {'family': 'srcless', 'n': 0, 'kind': 'dupport', 'order': order},
+                                                      'trace': tr, 'detail': {'sigkey': 'wrong_values_two_ports_of_one_name', 'instantiation': order,
+                                                                              'inputs(a,b,clk n)': [va, vb, n], 'expected': exp, 'got': got}})
+                        break
+
+
 def run_srcless(d, res):
     """combinational leaves without input ports at the head of a combinational chain: a library Constant whose value attribute
     is re-assigned (the repository's test-bench idiom), a user leaf decoding an attribute, a pad-input cell on a bidirectional
     wire.  Every sequence (length <= 3) of (new source value, clk(0) | clk(1)) - after each clock call the chain is settled."""
+    run_dupport(res)
     kinds = ['constant', 'attr', 'pad']
     orders = ['src_first', 'src_last']
     for kind in kinds:
